@@ -556,6 +556,13 @@ func runChild(p Property, c Case, exe, tmpRoot, tier string) (*CaseResult, bool)
 	data, _ := json.Marshal(c)
 	os.WriteFile(caseFile, data, 0o644)
 	ef, _ := os.Create(errFile)
+	// a case may ask for the build without the race detector (it is several times faster and reaches
+	// interleavings the instrumented build does not); ./check provides it for the properties that use it
+	if c.Bool("plain_build", false) {
+		if pe := os.Getenv("VERIF_PLAIN_EXE"); pe != "" {
+			exe = pe
+		}
+	}
 	cmd := exec.Command(exe, "worker", caseFile, resFile)
 	cmd.Stdout = ef
 	cmd.Stderr = ef
@@ -694,8 +701,20 @@ func readTail(path string, max int64) string {
 }
 
 func trimDump(s string) string {
-	if len(s) > 20000 {
-		return s[:20000] + "...(truncated)"
+	// a goroutine dump: keep the goroutines that are inside semadb or harness code (the runtime's own
+	// GC / timer goroutines are noise), the rest of the text as it is
+	if strings.Contains(s, "\ngoroutine ") {
+		var keep []string
+		for _, b := range strings.Split(s, "\n\n") {
+			t := strings.TrimLeft(b, "\n")
+			if !strings.HasPrefix(t, "goroutine ") || strings.Contains(b, "semafind/semadb/") || strings.Contains(b, "semaverif/") {
+				keep = append(keep, b)
+			}
+		}
+		s = strings.Join(keep, "\n\n")
+	}
+	if len(s) > 60000 {
+		return s[:60000] + "...(truncated)"
 	}
 	return s
 }
